@@ -198,6 +198,18 @@ package panos
 // text handed to the device, a file or a log is never interpreted as a printf format
 //vc:constformat[C03]
 
+// Content comparisons read the whole content: a field that is parsed from the
+// XML but left out of the comparison makes two different objects (or rules)
+// count as equal, and "device unchanged" is reported for a device that differs.
+// Not content: the name (objects are paired by it), the XML element name, the
+// bookkeeping flags, and the raw-file marker <APPEND/>.
+//vc:fieldscompared[C03] addressEq panAddress except XMLName,Name,needed,edit
+//vc:fieldscompared[C03] serviceEq panService except XMLName,Name,needed,edit
+//vc:fieldscompared[C03] protocolEq panProtocol
+//vc:fieldscompared[C03] portEq panPort
+//vc:fieldscompared[C03] unknownEq AnyHolder
+//vc:fieldscompared[C03] (*rulesPair).Equal panRule except XMLName,Name,Append
+
 // ---- C03: a Netspoc address-group never keeps the name of a device group ----
 // A Netspoc group that is transferred is written with `set` under its own name;
 // if a device group has that name the set merges into it. genUniqGroupNames
